@@ -70,10 +70,9 @@ func (s *State) StartOne(id string) {
 	s.Path = map[string]bool{}
 	n := s.G.Node(id)
 	s.Started[id] = true
+	// a start event's outgoing flows may carry conditions like those of any other node without a default flow
 	var work []arrival
-	for _, f := range n.Out {
-		work = append(work, arrival{s.G.Flow(f).Dst, f})
-	}
+	s.emitCond(n, &work)
 	s.settle(work)
 }
 
